@@ -578,7 +578,8 @@ class PendingAssign(PendingNode[Assign | AnnAssign]):
         return self.nsp.get_assign(target.id, value)
 
     def assign_subscript(self, target: Subscript, value: expr):
-        _slice = target.slice
+        # names inside the index have to be rewritten like everywhere else
+        _slice = expr_transf(self.nsp, target.slice)
         if isinstance(_slice, Slice):
             _slice = utils.convert_slice(_slice)
 
